@@ -32,7 +32,13 @@ Theorem c01_source_facts :
   Extracted.skeleton_processFuncOut =
     ["switch n"; "case 0"; "case 1"; "case 2"; "default"; "if funcType.Out(0) == errorType"; "if funcType.Out(1) != errorType"; "funcType.NumOut()"; "funcType.Out(0)"; "funcType.Out(1)"]%string /\
   Extracted.skeleton_param_marshal =
-    ["if p.v.Kind() == reflect.Invalid"; "json.Marshal(p.v.Interface())"]%string.
+    ["if p.v.Kind() == reflect.Invalid"; "json.Marshal(p.v.Interface())"]%string /\
+  (* the wire structs of a call: member names, types and which members may be left out (params never is: a raw-params
+     method called with nil raw params sends `null`) *)
+  Extracted.fields_request = [("Jsonrpc", "jsonrpc", "string", false); ("ID", "id", "interface{}", true); ("Method", "method", "string", false);
+     ("Params", "params", "json.RawMessage", false); ("Meta", "meta", "map[string]string", true)]%string /\
+  Extracted.fields_clientResponse = [("Jsonrpc", "jsonrpc", "string", false); ("Result", "result", "json.RawMessage", false);
+     ("ID", "id", "interface{}", false); ("Error", "error", "*JSONRPCError", true)]%string.
 Proof. repeat split; reflexivity. Qed.
 
 Section C01.
